@@ -58,6 +58,10 @@ EXPLANATION += (
     ' Round 7: the on-disk transposition that turns a CSC query into rows computes positions in the index space they are used in (R-SPACE, rule of C13).'
 )
 
+EXPLANATION += (
+    ' Round 8: block-wise loops over range(max(1, N // S)) are recognised by the whole-axis rule.'
+)
+
 RULE_TEXT = (
     "one obligation per kernel function x configuration (declared type, "
     "row independence) and per index identity")
